@@ -100,7 +100,12 @@ func genCase(t *rapid.T) Case {
 		case w < 29:
 			c.Ops = append(c.Ops, Op{Op: "reopen"})
 		default:
-			c.Ops = append(c.Ops, Op{Op: "aofonly", Hold: rapid.IntRange(0, 2).Draw(t, "keepReaders") == 0})
+			if rapid.Bool().Draw(t, "failedSnapshot") {
+				// a full resynchronisation whose snapshot transfer breaks in the middle; the next round starts by asking for the start point
+				c.Ops = append(c.Ops, Op{Op: "rdbFail", N: rapid.Int64Range(2, 3*c.LogSize).Draw(t, "failSize"), K: rapid.IntRange(0, 1).Draw(t, "sameIdAgain")})
+			} else {
+				c.Ops = append(c.Ops, Op{Op: "aofonly", Hold: rapid.IntRange(0, 2).Draw(t, "keepReaders") == 0})
+			}
 		}
 	}
 	return c
@@ -114,6 +119,7 @@ type pumpRef struct {
 	open  bool
 	held  bool // slow consumer, paused
 	slow  bool // was a slow consumer at some time: the cache's reader is then up to 2 MiB ahead of what the consumer has taken
+	dsGen int  // generation of the cache's index the reader was registered in (a replication-id switch or a reopen builds a new index)
 }
 
 type runner struct {
@@ -128,6 +134,7 @@ type runner struct {
 	rdbSize int64
 	rdbOK   bool
 	epoch   int
+	dsGen   int
 	pumps   []*pumpRef
 	fails   []failure
 	inconc  string
@@ -139,6 +146,7 @@ type runner struct {
 func (r *runner) fail(sig, msg string) { r.fails = append(r.fails, failure{sig, msg}) }
 
 func (r *runner) newLineage() {
+	r.dsGen++
 	r.lin++
 	r.id = fmt.Sprintf("%040d", r.lin)
 	r.epoch++
@@ -167,6 +175,60 @@ func (r *runner) guarded(what string, f func() error) (error, bool) {
 		r.hung = true
 		return nil, false
 	}
+}
+
+// afterReset: the readers that were left open across a cache reset have been invalidated by it. The reset closes them synchronously
+// (their pipes are closed before it returns), so each of them must now end or fail; one that is still being served nothing 10 s later
+// was forgotten (its consumer - a follower - would wait for ever). Bytes are compared as always.
+func (r *runner) afterReset(kept []*pumpRef) {
+	for _, p := range kept {
+		if p.held {
+			p.held = false
+			p.p.Resume()
+		}
+	}
+	deadline := time.Now().Add(10 * time.Second)
+	for i, p := range kept {
+		for {
+			_, done, _ := p.p.Snapshot()
+			if done {
+				break
+			}
+			if time.Now().After(deadline) {
+				ended := 0
+				for _, q := range kept {
+					if _, d, _ := q.p.Snapshot(); d {
+						ended++
+					}
+				}
+				if ended == 0 {
+					// nothing ended at all: not the "one reader forgotten" pattern; do not turn a time bound into a verdict
+					r.inconc = fmt.Sprintf("none of the %d readers left open across a cache reset ended within 10 s", len(kept))
+					return
+				}
+				r.fail("invalidated-reader-neither-ends-nor-fails", fmt.Sprintf("%d readers were open when the cache was reset; %d of them ended at once, reader %d (opened at %d, log reader=%v) is still open and silent 10 s later", len(kept), ended, i, p.p.X, p.p.Aof))
+				return
+			}
+			time.Sleep(time.Millisecond)
+		}
+		r.facts["invalidated-reader-ended"] = true
+	}
+}
+
+func (r *runner) keptReaders(keep bool) []*pumpRef {
+	if !keep {
+		return nil
+	}
+	var out []*pumpRef
+	for _, p := range r.pumps {
+		// only readers registered in the index that is being reset: a replication-id switch (SetRunId -> a new index is built from the
+		// directory) leaves the readers of the previous index on their own - nothing ever closes them, by construction, so a time bound is
+		// all one could hold against them (an observation in DESIGN.md, not a verdict)
+		if p.open && p.dsGen == r.dsGen {
+			out = append(out, p)
+		}
+	}
+	return out
 }
 
 func (r *runner) closeStaleUnless(keep bool) {
@@ -315,6 +377,7 @@ func (r *runner) probeValid() {
 func (r *runner) step(op Op) {
 	switch op.Op {
 	case "rdb", "aofonly":
+		kept := r.keptReaders(op.Hold)
 		r.closeStaleUnless(op.Hold)
 		r.ch.StopWriter() // a new run: the previous run's writer was stopped when that run ended
 		if r.ch.C.RunId() != "" {
@@ -325,6 +388,12 @@ func (r *runner) step(op Op) {
 			if err != nil {
 				r.inconc = "DelRunId: " + err.Error()
 				return
+			}
+			if r.c.Disk && len(kept) > 0 {
+				r.afterReset(kept)
+				if len(r.fails) > 0 || r.inconc != "" {
+					return
+				}
 			}
 		}
 		r.newLineage()
@@ -349,6 +418,61 @@ func (r *runner) step(op Op) {
 			return
 		}
 		r.left, r.right, r.has = off, off, true
+	case "rdbFail":
+		r.closeStale()
+		r.ch.StopWriter()
+		if r.ch.C.RunId() != "" {
+			if err := r.ch.C.DelRunId(r.ch.C.RunId()); err != nil {
+				r.inconc = "DelRunId: " + err.Error()
+				return
+			}
+		}
+		r.newLineage()
+		if err := r.ch.C.SetRunId(r.id); err != nil {
+			r.inconc = "SetRunId: " + err.Error()
+			return
+		}
+		off := r.c.Start + int64(r.lin)*100000
+		if e := r.ch.WriteRdb(r.lin, off, op.N, op.N/2); e != "" {
+			r.inconc = e
+			return
+		}
+		r.has, r.rdbOK = false, false
+		r.facts["snapshot-transfer-broken"] = true
+		// the next round: the input asks the cache where to continue (and, on the disk backend, selects the same id again)
+		sp, err := r.ch.C.StartPoint([]string{r.id})
+		if err != nil {
+			r.inconc = "StartPoint after a broken snapshot transfer: " + err.Error()
+			return
+		}
+		if op.K == 1 {
+			if err := r.ch.C.SetRunId(r.id); err != nil {
+				r.inconc = "SetRunId: " + err.Error()
+				return
+			}
+		}
+		if a, sz := r.ch.C.GetRdb(r.id); a != -1 {
+			r.fail("incomplete-snapshot-offered", fmt.Sprintf("a snapshot transfer of %d bytes at offset %d broke after %d bytes; in the next round GetRdb offers (%d,%d) and StartPoint says (%s,%d)", op.N, off, op.N/2, a, sz, sp.RunId, sp.Offset))
+			return
+		}
+		for _, x := range []int64{off - 1, off} {
+			if !r.ch.C.IsValidOffset(r.off(x)) {
+				continue
+			}
+			rd, err := r.ch.C.NewReader(r.off(x))
+			if err != nil {
+				r.fail("valid-offset-not-readable", fmt.Sprintf("after a broken snapshot transfer (offset %d, %d of %d bytes) IsValidOffset(%d) is true but NewReader fails: %v", off, op.N/2, op.N, x, err))
+				return
+			}
+			if !rd.IsAof() {
+				r.fail("incomplete-snapshot-offered", fmt.Sprintf("after a broken snapshot transfer (offset %d, %d of %d bytes) a snapshot reader is handed out for offset %d", off, op.N/2, op.N, x))
+			}
+			p := cache.StartPump(rd, r.lin, x)
+			p.Close()
+			if len(r.fails) > 0 {
+				return
+			}
+		}
 	case "append":
 		if !r.has {
 			return
@@ -420,7 +544,7 @@ func (r *runner) step(op Op) {
 			}
 			r.facts["snapshot-reader"] = true
 		}
-		r.pumps = append(r.pumps, &pumpRef{p: p, epoch: r.epoch, open: true, held: op.Hold, slow: op.Hold})
+		r.pumps = append(r.pumps, &pumpRef{p: p, epoch: r.epoch, open: true, held: op.Hold, slow: op.Hold, dsGen: r.dsGen})
 	case "begin":
 		for _, p := range r.pumps {
 			if p.held && p.open {
@@ -472,6 +596,7 @@ func (r *runner) step(op Op) {
 		r.closeStaleUnless(op.Hold)
 		r.ch.StopWriter()
 		r.epoch++
+		r.dsGen++
 		r.id = fmt.Sprintf("%039da", r.lin)
 		if err, ok := r.guarded("SetRunId", func() error { return r.ch.C.SetRunId(r.id) }); !ok {
 			return
@@ -505,6 +630,7 @@ func (r *runner) step(op Op) {
 		}
 		r.closeStale()
 		r.epoch++
+		r.dsGen++
 		r.ch.Close()
 		r.ch = cache.Open(true, r.ch.Dir, r.c.LogSize, r.c.MaxSize)
 		sp, err := r.ch.C.StartPoint([]string{r.id})
